@@ -303,6 +303,22 @@ def w14_query_indexerror(tmp):
     return None
 
 
+def w17_query_int_valueerror(tmp):
+    from aw_datastore import Datastore
+    from aw_datastore.storages import MemoryStorage
+    from aw_query import query2
+    from aw_query.exceptions import QueryException
+    ds = Datastore(MemoryStorage, testing=True)
+    for q in ("RETURN=" + "1" * 4301, "RETURN=\u00b2", "RETURN=[1, \u00b2]"):
+        try:
+            query2.query("n", q, T0, T0, ds)
+        except QueryException:
+            pass
+        except Exception as ex:
+            return f"{q[:20]!r}... raises {type(ex).__name__}"
+    return None
+
+
 def w15_config_merge(tmp):
     from aw_core.config import _comment_out_toml, _merge
     import tomlkit
